@@ -61,6 +61,9 @@ def run(ctx):
     ctx.rule("R14-9", "`for` binds each word: the value run_exp_for stores with set_env is the one the next `$var` expansion "
                       "reads - set_env writes the environment when the name is exported and the expansion consults the "
                       "environment first (the analyses of C09 R09-5 / R09-7)")
+    ctx.rule("R14-10", "the words of a `for` list: an unquoted token contributes its whitespace-separated words (none, when an "
+                       "expansion produced nothing), a quoted token contributes itself - in get_for_result_from_init a whole "
+                       "token is pushed only under a non-empty quote tag")
     ctx.rule("R14-4", "run_exp_if leaves at the first passed branch; a body runs only under test_pass; `while` calls its "
                       "head test on every iteration; `for` calls set_env(var, value) before each body run, iterating forward")
     gpath = os.path.join(ctx.root, "src", "parsers", "grammar.pest")
@@ -77,6 +80,7 @@ def run(ctx):
         order_rules(ctx, crate)
         flags_used_rule(ctx, crate)
         for_binding_rule(ctx, crate)
+        for_words_rule(ctx, crate)
 
 
 def anchor_rule(ctx, crate, g):
@@ -462,3 +466,42 @@ def for_binding_rule(ctx, crate):
             v["rule"] = "R14-9"
             v["key"] = "R14-9" + k[5:]
             ctx.violations[v["key"]] = v
+
+
+def for_words_rule(ctx, crate):
+    from .c02 import dom_facts
+    b = crate.fn("scripting::get_for_result_from_init")
+    if not ctx.require(b is not None, "R14-10", "R14-10|anchor", "scripting::get_for_result_from_init not found"):
+        return
+    ctx.analysed(b)
+    res = None
+    for bi, si in b.defs.get(0, []):
+        e = strip_sites(b.def_expr(bi, si))
+        if e[0] == "var":
+            res = e[1]
+    pushes = [bb for bb, t, c in b.calls() if last_seg(c) == "push" and "Vec" in c and b.call_args(bb) and
+              mir.root_local_expr(b.expand_vars(strip_sites(b.call_args(bb)[0]))) == res]
+    if not ctx.require(res is not None and len(pushes) >= 2, "R14-10", "R14-10|%s|pushes" % b.path,
+                       "expected the word list to be filled by two kinds of push", b.path):
+        return
+    whole, split = [], []
+    for bb in pushes:
+        v = b.expand_vars(strip_sites(b.call_args(bb)[1]))
+        if any(sub[0] == "call" and last_seg(sub[1]) in ("split_whitespace", "split_ascii_whitespace", "split") for sub in mir.subexprs(v)) \
+                or flow.backward(b, b.call_args(bb)[1], lambda z: z[0] == "call" and last_seg(z[1]) in (
+                    "split_whitespace", "split_ascii_whitespace"), through_containers=False) is not None:
+            split.append(bb)
+        else:
+            whole.append(bb)
+    ok = bool(split) and bool(whole)
+    for bb in whole:
+        tagged = False
+        for a, v in dom_facts(b, bb):
+            a2 = strip_sites(a)
+            if a2[0] == "call" and last_seg(a2[1]) == "is_empty" and v is False:
+                tagged = True
+        ok = ok and tagged
+    ctx.ob("R14-10", b.path, "a whole token becomes one for-word only when it carries a quote tag", ok,
+           key="R14-10|%s|whole-token-untagged" % b.path, where=b.loc((whole or pushes)[0]), crate=crate.kind,
+           detail=None if ok else "an unquoted expansion that produced nothing (`for x in $EMPTY`, `$(true)`, `$@` without "
+           "arguments) becomes the word \"\": the body runs once with an empty variable")
